@@ -70,6 +70,10 @@ def case_spec(prop, seed, i):
         acc += w
         if r < acc:
             break
+    if name == 'conn3' and rnd.random() < .5:
+        # (the generic three-connection-choice class is often infeasible as a whole; half of its share goes to a shape
+        # in which every combination of the three choices is an architecture)
+        return 'conn3_simple', gen.gen_conn3_simple(rnd)
     return name, gen.gen_spec(rnd, **kw)
 
 
